@@ -43,6 +43,9 @@ type Check struct {
 	// Serial forces a single worker (used by checks that are cheap or that manage their own
 	// processes).
 	MaxWorkers int
+	// RlimitMB caps the address space of each worker process (0 = no cap), so that a runaway
+	// allocation kills one attributable worker instead of the sandbox.
+	RlimitMB int
 }
 
 // Violation is one refutation of a property observed by a monitor.
